@@ -165,6 +165,27 @@ var c03Chain = &c03Universe{
 	node2:      c03V(4, 4),
 }
 
+// c03Starved: c03-s guarantees itself the whole first node (min = max = node1) as soon as its pod asks for it, so the
+// runtime quota of the elastic c03-e (min 0) is ZERO in every dimension until a second node arrives: "the current
+// limit" of a quota can legitimately be an all-zero vector (seed C03-2: such a limit was mistaken for "not calculated").
+var c03Starved = &c03Universe{
+	name: "starved",
+	desc: "root->{c03-s (min=max=node1), c03-e (min 0 or 1, max node1 or more)}",
+	quotas: []c03QuotaDef{
+		{name: "c03-s", parent: -1, lend: true, maxLevels: []c03Vec{c03V(4, 4)}, minLevels: []c03Vec{c03V(4, 4)}},
+		{name: "c03-e", parent: -1, lend: true,
+			maxLevels: []c03Vec{c03V(4, 4), c03V(6, 6)}, maxStart: 0, minLevels: []c03Vec{c03V(0, 0), c03V(1, 1)}, minStart: 0},
+	},
+	pods: []c03PodDef{
+		{name: "s1", quota: 0, req: c03V(4, 4)},
+		{name: "e1", quota: 1, req: c03V(1, 1)},
+		{name: "e2", quota: 1, req: c03V(2, 1), nonPreemptible: true},
+	},
+	syncLeaves: []int{0, 1},
+	node1:      c03V(4, 4),
+	node2:      c03V(2, 2),
+}
+
 // ---------------------------------------------------------------------------------------------------------
 // alphabet
 
@@ -1019,6 +1040,9 @@ func c03Plan(env *mc.Env) []*c03Cfg {
 			}
 			add(c03NewCfg("chain", c03Chain, rt, cp, rt && env.Thorough(), 4, d0, w), d1)
 		}
+	}
+	for _, cp := range []bool{false, true} {
+		add(c03NewCfg("starved", c03Starved, true, cp, env.Thorough(), 3, d0, 1), d1+1)
 	}
 	for _, cp := range []bool{false, true} {
 		add(c03NewCfg("hist", c03Tree, false, cp, false, env.Pick(6, 7), d0, 5), d1)
